@@ -2,10 +2,10 @@ SPECIFICATION SpecFrom
 CONSTANTS
   MaxNodes = 6
   Keys = {1, 2}
-  Leafs = {101}
+  Leafs = {101, 160}
   Shapes = {200, 211, 220}
   MaxLen = 2
-  Acts = {"clone", "json"}
+  Acts = {"clone"}
   Mirror = FALSE
   MaxLevel = 2
   InitKinds <- IK_DictList
